@@ -379,7 +379,6 @@ func haltClearedOnlyWhenArming(c *core.Ctx) {
 	if arm == nil || hi < 0 {
 		core.Undecidedf("arming function / halt field not resolved")
 	}
-	reset := vmResetFunc(p)
 	isHalt := func(v ssa.Value) bool {
 		for _, o := range core.Origins(v) {
 			if fa, ok := o.(*ssa.FieldAddr); ok && fa.Field == hi && core.NamedOf(fa.X.Type()) == r.vmT {
@@ -412,9 +411,9 @@ func haltClearedOnlyWhenArming(c *core.Ctx) {
 					continue
 				}
 				n++
-				okf := fn == arm || (reset != nil && fn == p.SSAFunc(reset)) || isVMConstruction(fn, r.vmT)
+				okf := fn == arm || isVMConstruction(fn, r.vmT)
 				c.Check(okf, core.SSAName(fn)+"|halt-cleared-only-when-arming", p.Pos(in.Pos()),
-					"the halt flag is cleared by "+fn.Name()+ifs(okf, " (arming / reset for new code)")+ifs(!okf, ": outside the arming function a cleared flag lets the code that called the halted eval (a try() around a callback, the enclosing loop) run on after cancellation"))
+					"the halt flag is cleared by "+fn.Name()+ifs(okf, " (the arming function)")+ifs(!okf, ": outside the arming function a cleared flag lets the code that called the halted eval (a try() around a callback, the enclosing loop) run on after cancellation"))
 			}
 		}
 	}
@@ -1330,4 +1329,437 @@ func functionIDsFromTheCounter(c *core.Ctx) {
 		core.Undecidedf("no call of Code.newChild with an id found")
 	}
 	c.Stat("function_id_sites", n)
+}
+
+// ---------------------------------------------------------------------------
+// timesComparedAsInstants: == on time.Time compares the wall clock encoding,
+// the monotonic reading and the location pointer.  Two values for the same
+// instant in different zones are "unequal", and a Compare that tests == first
+// and After second then answers -1 in both directions (a < b and b < a).  The
+// interpreter compares times with Equal / Before / After.
+func timesComparedAsInstants(c *core.Ctx) {
+	p := c.P
+	n, methods := 0, 0
+	for _, fn := range repoFns(p) {
+		if fn.Pkg == nil || !interpreterPkg(core.RelPkg(fn.Pkg.Pkg)) {
+			continue
+		}
+		for _, b := range fn.Blocks {
+			for _, in := range b.Instrs {
+				if call, ok := in.(*ssa.Call); ok {
+					if cal := call.Call.StaticCallee(); cal != nil && cal.Pkg != nil && cal.Pkg.Pkg.Path() == "time" && (cal.Name() == "Equal" || cal.Name() == "Before" || cal.Name() == "After") {
+						methods++
+					}
+				}
+				bo, ok := in.(*ssa.BinOp)
+				if !ok || (bo.Op != token.EQL && bo.Op != token.NEQ) || !core.IsNamed(bo.X.Type(), "time", "Time") {
+					continue
+				}
+				n++
+				c.Check(false, core.SSAName(fn)+"|time-compared-with-==", p.Pos(bo.Pos()),
+					fn.Name()+" compares two time.Time values with "+bo.Op.String()+": the same instant in two locations is unequal (use Equal)")
+			}
+		}
+	}
+	c.Check(methods > 0, "control|time-comparisons", "", sprintf("%d comparisons of times through Equal/Before/After (positive control), %d through ==", methods, n))
+	c.Stat("time_struct_comparisons", n)
+}
+
+// ---------------------------------------------------------------------------
+// storesToResolvedNamesCheckConstness: a compile function that resolves an
+// existing name (SymbolTable.Resolve) and emits a store to it tests
+// Symbol.IsConstant first, on the path to the store.  Assignment does; postfix
+// (k++) and the plain form of multi-assignment (a, b = …) must too, or a
+// `const` can be changed.
+func storesToResolvedNamesCheckConstness(c *core.Ctx) {
+	p := c.P
+	cp := p.Pkg("compiler")
+	stT := core.MustType(cp, "SymbolTable")
+	symT := core.MustType(cp, "Symbol")
+	resolve := core.Method(stT, "Resolve")
+	isConst := core.Method(symT, "IsConstant")
+	if resolve == nil || isConst == nil {
+		core.Undecidedf("SymbolTable.Resolve / Symbol.IsConstant not found")
+	}
+	resolveF, isConstF := p.SSAFunc(resolve), p.SSAFunc(isConst)
+	opc := VMTable(p).OpConsts
+	storeOps := map[int64]string{}
+	for _, name := range []string{"StoreGlobal", "StoreFast", "StoreFree"} {
+		if k := opc[name]; k != nil {
+			if v, ok := constantInt64(k.Val()); ok {
+				storeOps[v] = name
+			}
+		}
+	}
+	if len(storeOps) == 0 {
+		core.Undecidedf("store opcodes not found")
+	}
+	n := 0
+	for _, fn := range repoFns(p, "compiler") {
+		var resolves, stores, tests []ssa.Instruction
+		for _, b := range fn.Blocks {
+			for _, in := range b.Instrs {
+				call, ok := in.(*ssa.Call)
+				if !ok {
+					continue
+				}
+				cal := call.Call.StaticCallee()
+				switch {
+				case cal == resolveF:
+					resolves = append(resolves, in)
+				case cal == isConstF:
+					tests = append(tests, in)
+				case cal != nil && cal.Name() == "emit" && len(call.Call.Args) >= 2:
+					if k, ok := call.Call.Args[1].(*ssa.Const); ok && k.Value != nil {
+						if v, ok := constantInt64(k.Value); ok && storeOps[v] != "" {
+							stores = append(stores, in)
+						}
+					}
+				}
+			}
+		}
+		if len(resolves) == 0 || len(stores) == 0 {
+			continue
+		}
+		perOp := map[string]int{}
+		for _, st := range stores {
+			// only stores that follow a Resolve (not the store of a fresh declaration in another branch)
+			after := false
+			for _, r := range resolves {
+				if instrDominates(r, st) {
+					after = true
+				}
+			}
+			if !after {
+				continue
+			}
+			n++
+			checked := false
+			for _, t := range tests {
+				call := t.(*ssa.Call)
+				if call.Referrers() == nil {
+					continue
+				}
+				for _, r := range *call.Referrers() {
+					iff, ok := r.(*ssa.If)
+					if !ok {
+						continue
+					}
+					notConst := iff.Block().Succs[1]
+					if notConst == st.Block() || notConst.Dominates(st.Block()) {
+						checked = true
+					}
+				}
+			}
+			kv, _ := constantInt64(st.(*ssa.Call).Call.Args[1].(*ssa.Const).Value)
+			opName := storeOps[kv]
+			perOp[opName]++
+			c.Check(checked, core.SSAName(fn)+"|store-after-constness-test|"+opName+ifs(perOp[opName] > 1, "#"+itoa(perOp[opName])), p.Pos(st.Pos()),
+				fn.Name()+" stores to a resolved name only after testing that it is not a constant"+ifs(!checked, ": a `const` can be changed through this statement form"))
+		}
+	}
+	c.Stat("stores_to_resolved_names", n)
+}
+
+// ---------------------------------------------------------------------------
+// finishedContextIsRefused: the arming function tests ctx.Err() and returns it
+// before it marks the VM as running.  Without the test a context that is over
+// already only stops the program if the watcher goroutine wins a race against
+// the dispatch loop: a short program runs to completion and returns success.
+func finishedContextIsRefused(c *core.Ctx) {
+	p := c.P
+	r := resolveVMRoles(p)
+	arm := p.SSAFunc(r.arm)
+	if arm == nil {
+		core.Undecidedf("arming function not resolved")
+	}
+	var ctxP *ssa.Parameter
+	for _, prm := range arm.Params {
+		if isContext(prm.Type()) {
+			ctxP = prm
+		}
+	}
+	if ctxP == nil {
+		core.Undecidedf("%s takes no context", arm.Name())
+	}
+	var firstMark ssa.Instruction
+	for _, b := range arm.Blocks {
+		for _, in := range b.Instrs {
+			if s, ok := in.(*ssa.Store); ok && firstMark == nil {
+				if fa, ok := s.Addr.(*ssa.FieldAddr); ok && core.NamedOf(fa.X.Type()) == r.vmT {
+					if k, ok := s.Val.(*ssa.Const); ok && k.Value != nil && k.Value.String() == "true" {
+						firstMark = in
+					}
+				}
+			}
+		}
+	}
+	refused := false
+	for _, b := range arm.Blocks {
+		for _, in := range b.Instrs {
+			call, ok := in.(*ssa.Call)
+			if !ok || !call.Call.IsInvoke() || call.Call.Method.Name() != "Err" || call.Call.Value != ssa.Value(ctxP) || call.Referrers() == nil {
+				continue
+			}
+			for _, ref := range *call.Referrers() {
+				bo, ok := ref.(*ssa.BinOp)
+				if !ok || bo.Op != token.NEQ || bo.Referrers() == nil {
+					continue
+				}
+				for _, r2 := range *bo.Referrers() {
+					iff, ok := r2.(*ssa.If)
+					if !ok {
+						continue
+					}
+					// the error branch returns the error ...
+					returns := false
+					for _, i2 := range iff.Block().Succs[0].Instrs {
+						if ret, ok := i2.(*ssa.Return); ok && len(ret.Results) > 0 {
+							returns = true
+						}
+					}
+					// ... and the test comes before the mark
+					if returns && (firstMark == nil || instrDominates(in, firstMark)) {
+						refused = true
+					}
+				}
+			}
+		}
+	}
+	c.Check(refused, "vm.VirtualMachine."+arm.Name()+"|finished-context-refused-before-running", p.Pos(arm.Pos()),
+		arm.Name()+" returns ctx.Err() for a context that is over already, before it marks the VM as running"+ifs(!refused, ": otherwise stopping depends on the watcher goroutine winning a race, and a short program under a cancelled context returns success"))
+}
+
+// ---------------------------------------------------------------------------
+// rejectedOptionsAreRolledBack: the VM method that applies a list of options
+// (at construction and before every RunCode) can fail after the options ran -
+// when the globals they supplied cannot be converted.  On that error path it
+// puts the input-globals table back as it was: otherwise the rejected value
+// stays in the table and every later invocation on the VM fails on it.
+func rejectedOptionsAreRolledBack(c *core.Ctx) {
+	p := c.P
+	vmp := p.Pkg("vm")
+	vmT := core.MustType(vmp, "VirtualMachine")
+	igI := fieldIdxByName(vmT, "inputGlobals")
+	if igI < 0 {
+		core.Undecidedf("VirtualMachine.inputGlobals not found")
+	}
+	n := 0
+	for _, fn := range repoFns(p, "vm") {
+		if fn.Signature.Recv() == nil || core.NamedOf(fn.Signature.Recv().Type()) != vmT {
+			continue
+		}
+		// applies options: a dynamic call of a func(*VirtualMachine) value with the receiver
+		var optCalls []ssa.Instruction
+		for _, b := range fn.Blocks {
+			for _, in := range b.Instrs {
+				call, ok := in.(*ssa.Call)
+				if !ok || call.Call.IsInvoke() || call.Call.StaticCallee() != nil || len(call.Call.Args) != 1 {
+					continue
+				}
+				if call.Call.Args[0] == ssa.Value(fn.Params[0]) {
+					optCalls = append(optCalls, in)
+				}
+			}
+		}
+		if len(optCalls) == 0 {
+			continue
+		}
+		reach := map[*ssa.BasicBlock]bool{}
+		var walk func(b *ssa.BasicBlock)
+		walk = func(b *ssa.BasicBlock) {
+			for _, s := range b.Succs {
+				if !reach[s] {
+					reach[s] = true
+					walk(s)
+				}
+			}
+		}
+		for _, oc := range optCalls {
+			walk(oc.Block())
+		}
+		for _, b := range fn.Blocks {
+			if !reach[b] {
+				continue
+			}
+			for _, in := range b.Instrs {
+				ret, ok := in.(*ssa.Return)
+				if !ok || len(ret.Results) == 0 {
+					continue
+				}
+				last := spilledResult(b, ret.Results[len(ret.Results)-1])
+				if k, ok := last.(*ssa.Const); ok && k.IsNil() {
+					continue
+				}
+				n++
+				restored := false
+				for _, b2 := range fn.Blocks {
+					if !reach[b2] || (b2 != b && !b2.Dominates(b)) {
+						continue
+					}
+					for _, i2 := range b2.Instrs {
+						if st, ok := i2.(*ssa.Store); ok {
+							if fa, ok := st.Addr.(*ssa.FieldAddr); ok && fa.Field == igI && core.NamedOf(fa.X.Type()) == vmT {
+								restored = true
+							}
+						}
+					}
+				}
+				c.Check(restored, core.SSAName(fn)+"|rejected-options-rolled-back", p.Pos(ret.Pos()),
+					fn.Name()+" puts the input globals back when it fails after the options have run"+ifs(!restored, ": the rejected value stays in the table and every later invocation on this VM fails on it"))
+			}
+		}
+	}
+	c.Stat("option_appliers_error_returns", n)
+}
+
+// ---------------------------------------------------------------------------
+// iterationStateIsPerConsumer: Iter() of a value hands out a new iterator object;
+// it never returns the value itself.  A channel that is its own iterator keeps
+// "the value received last" on the channel: two threads ranging over it
+// overwrite each other's entry between Next and Entry, and values are lost and
+// delivered twice.
+func iterationStateIsPerConsumer(c *core.Ctx) {
+	p := c.P
+	n := 0
+	for _, fn := range repoFns(p, "object") {
+		if fn.Name() != "Iter" || fn.Signature.Recv() == nil || fn.Synthetic != "" || len(fn.Params) == 0 {
+			continue
+		}
+		rt := core.NamedOf(fn.Signature.Recv().Type())
+		if rt == nil || strings.HasSuffix(strings.ToLower(rt.Obj().Name()), "iter") {
+			continue // an iterator is the per-consumer state
+		}
+		n++
+		self := false
+		for _, b := range fn.Blocks {
+			for _, in := range b.Instrs {
+				ret, ok := in.(*ssa.Return)
+				if !ok || len(ret.Results) != 1 {
+					continue
+				}
+				for _, o := range core.Origins(ret.Results[0]) {
+					if mi, ok := o.(*ssa.MakeInterface); ok {
+						o = mi.X
+					}
+					if o == ssa.Value(fn.Params[0]) {
+						self = true
+					}
+				}
+			}
+		}
+		c.Check(!self, "object."+rt.Obj().Name()+".Iter|returns-a-new-iterator", p.Pos(fn.Pos()),
+			rt.Obj().Name()+".Iter() returns a new iterator object"+ifs(self, ": it returns the "+rt.Obj().Name()+" itself, so the state of an iteration (the entry received last) is shared by every loop over it, in every thread"))
+	}
+	c.Stat("iter_methods", n)
+}
+
+// ---------------------------------------------------------------------------
+// messagesAreNotFormats: a printf-style function of the repository
+// (…Errorf(format, args...), setTokenError(tok, format, args...)) is not given a
+// computed string - an error's text, a message built elsewhere - as its format
+// with no arguments.  Every '%' in that text is then read as a verb ("50% done"
+// becomes "50%!d(MISSING)one"), and an error re-rendered this way also loses its
+// identity (errors.Is(err, context.DeadlineExceeded) is false afterwards).
+func messagesAreNotFormats(c *core.Ctx) {
+	p := c.P
+	n, sites := 0, 0
+	for _, fn := range repoFns(p) {
+		if fn.Pkg == nil || p.ByRel[strings.TrimPrefix(core.RelPkg(fn.Pkg.Pkg), "./")] == nil && core.RelPkg(fn.Pkg.Pkg) != "." {
+			continue
+		}
+		for _, b := range fn.Blocks {
+			for _, in := range b.Instrs {
+				ci, ok := in.(ssa.CallInstruction)
+				if !ok {
+					continue
+				}
+				cal := ci.Common().StaticCallee()
+				if cal == nil || !core.RepoFunc(cal) {
+					continue
+				}
+				sg := cal.Signature
+				if !sg.Variadic() || sg.Params().Len() < 2 {
+					continue
+				}
+				np := sg.Params().Len()
+				last, ok := sg.Params().At(np - 1).Type().(*types.Slice)
+				if !ok {
+					continue
+				}
+				if _, isIface := last.Elem().Underlying().(*types.Interface); !isIface || !core.IsStringType(sg.Params().At(np-2).Type()) {
+					continue
+				}
+				if !printfLike(cal, 0) {
+					continue
+				}
+				args := ci.Common().Args
+				if sg.Recv() != nil {
+					// receiver is the first argument
+				}
+				if len(args) < 2 {
+					continue
+				}
+				format, rest := args[len(args)-2], args[len(args)-1]
+				sites++
+				if _, isConst := format.(*ssa.Const); isConst {
+					continue
+				}
+				// arguments given: the format may still be computed, but '%' in the arguments is safe; judge only the no-argument form
+				if k, ok := rest.(*ssa.Const); !ok || !k.IsNil() {
+					continue
+				}
+				// a format forwarded from the caller's own printf-style parameters is the caller's business
+				if prm, ok := format.(*ssa.Parameter); ok && fn.Signature.Variadic() && prm.Parent() == fn {
+					continue
+				}
+				n++
+				c.Check(false, core.SSAName(fn)+"|message-used-as-format|"+cal.Name(), p.Pos(in.Pos()),
+					fn.Name()+" passes a computed string to "+cal.Name()+" as the format, with no arguments: a '%' in it is read as a verb, and an error re-rendered through its text loses its identity (wrap it with NewError, or use \"%s\")")
+			}
+		}
+	}
+	c.Check(sites > 0, "control|printf-style-calls", "", sprintf("%d calls of printf-style functions of the repository examined (positive control), %d with a computed format and no arguments", sites, n))
+	c.Stat("printf_style_calls", sites)
+}
+
+// printfLike: f hands its (string, ...interface{}) tail to fmt's formatting
+// functions or to another such function of the repository.
+func printfLike(f *ssa.Function, depth int) bool {
+	if f == nil || f.Blocks == nil || depth > 2 {
+		return false
+	}
+	np := len(f.Params)
+	if np < 2 {
+		return false
+	}
+	format := f.Params[np-2]
+	for _, b := range f.Blocks {
+		for _, in := range b.Instrs {
+			ci, ok := in.(ssa.CallInstruction)
+			if !ok {
+				continue
+			}
+			uses := false
+			for _, a := range ci.Common().Args {
+				if a == ssa.Value(format) {
+					uses = true
+				}
+			}
+			if !uses {
+				continue
+			}
+			cal := ci.Common().StaticCallee()
+			if cal == nil {
+				continue
+			}
+			if cal.Pkg != nil && cal.Pkg.Pkg.Path() == "fmt" && strings.HasSuffix(cal.Name(), "f") {
+				return true
+			}
+			if core.RepoFunc(cal) && cal != f && printfLike(cal, depth+1) {
+				return true
+			}
+		}
+	}
+	return false
 }
